@@ -4,8 +4,8 @@
 From Coq Require Import List NArith Bool String Ascii.
 Import ListNotations.
 From TP Require Import Core Val Path Unix Win StdUnix.
-Open Scope N_scope.
 Open Scope string_scope.
+Open Scope N_scope.
 
 Definition e_comp (c : comp) : val :=
   match c with Root => VC "R" [] | Cur => VC "C" [] | Parent => VC "P" [] | Normal n => VC "Nm" [VB n] end.
